@@ -1,6 +1,5 @@
 /- Driver for `kind = "c20:…"` cases:
    c20:buf  — operation sequences on SecretBytes (Model A, `AskarModel/Model/SecretBuf.lean`)
-   c20:seal — crypto_box_seal's use of the inner Vec (Model A)
    c20:fmt / c20:log / c20:key — formatting, log capture, key drop (Model B, `AskarModel/Model/SecretFmt.lean`) -/
 import Driver.Common
 import AskarModel.Model.SecretBuf
@@ -10,6 +9,7 @@ open Lean
 
 namespace Driver.C20
 open Askar Askar.SecretBuf
+open Askar.SecretFmt (Alg Ty ErrCase LogSite Scenario)
 
 /-- data spec `{"s": seed, "n": len}`: byte i = 0x80 + ((s + 37 i + 11 (i / 128)) mod 128) — every content byte has its
     top bit set, which is what the instrumented allocator looks for in released blocks -/
@@ -103,13 +103,92 @@ def runBuf (j : Json) : Json :=
              (if diag then [("trace", Json.arr (evs.map eventJson).toArray)] else [])
   Json.arr (outs.push (Json.mkObj fin))
 
+/-! ### Model B -/
+
+def parseAlg (s : String) : Option Alg := Alg.all.find? fun a => a.name == s
+
+def parseTy (s : String) : Option Ty :=
+  let parts := s.splitOn ":"
+  let head := parts.headD ""
+  let arg := (parts.drop 1).headD ""
+  match head with
+  | "SecretBytes" => some .secretBytes
+  | "ArrayKey" => some .arrayKey
+  | "PassKey" => some .passKey
+  | "Entry" => some .entry
+  | "Options" => some (.options (arg == "query"))
+  | "PostgresStoreOptions" => some (.pgOptions (arg == "query"))
+  | "Argon2" => some .argon2
+  | "BlsKeyGen" => some .blsKeyGen
+  | "RandomDet" => some .randomDet
+  | "Encrypted" => some .encrypted
+  | "KeyEntry" => some .keyEntry
+  | "Store" => some .store
+  | "Session" => some .session
+  | "JwkParts" => (parseAlg arg).map .jwkParts
+  | "Key" => (parseAlg arg).map .key
+  | "AnyKey" => (parseAlg arg).map .anyKey
+  | "LocalKey" => (parseAlg arg).map .localKey
+  | "Error" =>
+    match arg with
+    | "secret_bytes_len" => some (.error .secretBytesLen)
+    | "jwk_mismatch" => some (.error .jwkMismatch)
+    | "jwk_garbage" => some (.error .jwkGarbage)
+    | "bad_raw_key" => some (.error .badRawKey)
+    | "wrong_pass_key" => some (.error .wrongPassKey)
+    | "decrypt_bad_tag" => some (.error .decryptBadTag)
+    | _ => none
+  | _ => none
+
+def runFmt (j : Json) : Json :=
+  match parseTy (str! j "ty") with
+  | some t => Json.mkObj [("leak", .bool (SecretFmt.leaky t))]
+  | none => jerr "unknown type"
+
+def stepsJson (l : List (String × Bool)) : Json :=
+  Json.arr (l.map fun (s, b) => Json.arr #[.str s, .bool b]).toArray
+
+/-- outcome (success / failure) of the steps of the store life cycle the harness walks through while capturing the log -/
+def lifecycleSteps : List (String × Bool) :=
+  [("provision", true), ("insert", true), ("insert-duplicate", false), ("fetch", true), ("fetch_all", true), ("count", true),
+   ("replace-missing", false), ("key-ops", true), ("fetch_all_keys", true), ("scan", true), ("remove_all", true), ("rekey", true),
+   ("open", true), ("open-old-key", false), ("open-wrong-pass", false), ("open-missing", false), ("remove", true)]
+
+def runLog (j : Json) : Json :=
+  let sc := str! j "scenario"
+  let parts := sc.splitOn ":"
+  let head := parts.headD ""
+  let arg := (parts.drop 1).headD ""
+  match head with
+  | "lifecycle" =>
+    -- file-backed SQLite URI without credentials; the any.rs sites fire (open / provision / remove) together with label-only sites
+    let s : Scenario := ⟨[.anyOptions, .label], false⟩
+    Json.mkObj [("leak", .bool s.leaks), ("steps", stepsJson lifecycleSteps)]
+  | "uri" =>
+    let s : Scenario := ⟨[.anyOptions, .label], true⟩
+    let ew := arg.splitOn "/"
+    let entry := ew.headD ""
+    let which := (ew.drop 1).headD "postgres"
+    -- nothing connects; removing a SQLite file that does not exist is `Ok(false)`
+    let ok := entry == "remove" && which == "sqlite"
+    Json.mkObj [("leak", .bool s.leaks), ("steps", stepsJson [(entry ++ "-" ++ which, ok)])]
+  | _ => jerr "unknown scenario"
+
+def runKey (j : Json) : Json :=
+  let ty := str! j "ty"
+  if ty == "Store" then
+    -- inline keys moved through boxed futures are outside the model (DESIGN C20, "Partial"): diagnostic only
+    Json.mkObj [("dirty_release", .str "diagnostic")]
+  else
+    let blk : SecretFmt.KeyBlock := ⟨[1, 2, 3]⟩
+    Json.mkObj [("dirty_release", .bool ((SecretFmt.dropKey blk).cells.any (· != 0)))]
+
 def runCase (j : Json) : Json :=
   match str! j "kind" with
   | "c20:buf" => runBuf j
-  | "c20:seal" => Askar.SecretFmt.Driver.runSeal (nat! j "n")
-  | "c20:fmt" => Askar.SecretFmt.Driver.runFmt (str! j "ty")
-  | "c20:log" => Askar.SecretFmt.Driver.runLog (str! j "scenario")
-  | "c20:key" => Askar.SecretFmt.Driver.runKey (str! j "ty")
+  | "c20:fmt" => runFmt j
+  | "c20:log" => runLog j
+  | "c20:key" => runKey j
   | k => jerr ("unknown kind " ++ k)
 
 end Driver.C20
